@@ -161,18 +161,19 @@ def check(ctx, facts, cfg):
                             and c[2][0] == 'call' and c[2][1].endswith('FixedBitSet::len') and c[2][2] and same_obj(c[2][2][0], recv):
                         if body.edge_dominates((sb, st['otherwise']), b):
                             guarded = True
-                if guarded and is_self_field(recv):
+                if is_self_field(recv):
+                    # FixedBitSet::grow(n) does nothing unless n > len() (fixedbitset contract): the explicit guard is optional
                     allowed_found['grow'] += 1
-                    ctx.ok('C17.b-reset-sites', '%s:FixedBitSet::grow@%s' % (p, cfg), {'site': line, 'guard': 'len < %s' % core.show(need)})
+                    ctx.ok('C17.b-reset-sites', '%s:FixedBitSet::grow@%s' % (p, cfg), {'site': line, 'guard': ('len < %s' % core.show(need)) if guarded else 'none (grow is a no-op unless more is needed)'})
                 else:
-                    ctx.violation('C17.b-reset-sites', 'grow-unguarded', 'FixedBitSet::grow is not dominated by `len() < needed` over the same bitmap and operand',
+                    ctx.violation('C17.b-reset-sites', 'grow-foreign', 'FixedBitSet::grow on something that is not a field of the work object',
                                   site=line, fn=p, cfg=cfg)
                 continue
             ctx.violation('C17.b-reset-sites', 'alloc:%s' % core.short(q)[:70],
                           'reset/new can reach may-allocate callee %s (only Vec::resize on the shard store and guarded FixedBitSet::grow reuse held space): %s'
                           % (q, ' -> '.join(core.short(x) for x in cg.chain(parent2, p))), site=line, fn=p, cfg=cfg)
     ctx.floor('C17.b-reset-sites', 1, allowed_found['resize'], 'Vec::resize sites on the shard store', cfg=cfg)
-    ctx.floor('C17.b-reset-sites', 1, allowed_found['grow'], 'guarded FixedBitSet::grow sites', cfg=cfg)
+    ctx.floor('C17.b-reset-sites', 1, allowed_found['grow'], 'FixedBitSet::grow sites on the work object', cfg=cfg)
 
     # ---------------- (c)
     ncons = 0
@@ -232,6 +233,21 @@ def check(ctx, facts, cfg):
                     some = wk[0] == 'adt' and wk[2] == 'Some'
                     src_w = wk[3][0][1] if some else None
                     src_w_call = src_w[1] if (src_w and src_w[0] == 'field') else None
+                    def from_parts(c):
+                        """root local of a field chain whose every definition is a call of into_parts()"""
+                        while isinstance(c, tuple) and c and c[0] in ('field', 'down', 'ref', 'deref'):
+                            c = c[1]
+                        if isinstance(c, tuple) and c and c[0] in ('var', 'tmp'):
+                            l = c[-1]
+                            ds = body.defs().get(l, [])
+                            if ds and all(d[0] == 'call' and (body.term(d[1])['callee'].get('path') or '').endswith('::into_parts') for d in ds):
+                                return ('parts', l)
+                        return None
+                    fe, fw_ = from_parts(eng), from_parts(src_w) if some else None
+                    if some and fe is not None and fe == fw_:
+                        nsw += 1
+                        ctx.ok('C17.c-work-travels', '%s:switch->%s@%s' % (p, core.short(k), cfg), {'from': 'into_parts() of whichever codec was taken out'})
+                        continue
                     if some and src_e and src_w_call and src_e == src_w_call and src_e[0] == 'call' and src_e[1].endswith('::into_parts'):
                         nsw += 1
                         ctx.ok('C17.c-work-travels', '%s:switch->%s@%s' % (p, core.short(k), cfg), {'from': core.short(src_e[1])})
